@@ -18,6 +18,7 @@ CONSTANTS
  K = 2
  LoopChecksFlag = TRUE
  AssertLine = FALSE
+ CapOrder <- GCap
  StopAllowed = TRUE
 SPECIFICATION MCSpec
 CHECK_DEADLOCK FALSE
